@@ -129,6 +129,18 @@ SPECIAL = [
     ('class-keywords', 'class A(metaclass=M):\n    pass\nA\n', (3, 1)),
     ('locals-multi', 'def f(c):\n    if c:\n        locals = 1\n    return locals()\n', (4, 10)),
     ('nested-class-loop', 'for i in range(2):\n    class K:\n        k = i\nclass D(K):\n    d = 1\nD().\n', (6, 4)),
+    # names whose spelling in the text is not the spelling the parser hands out (NFKC), non-ASCII text left of a binding on the same
+    # line (ast columns are bytes), bindings far below the start of their statement: whatever locates a binding must cope
+    ('nfkc-def', 'def \ufb01nd():\n    pass\n\ufb01nd\n', (3, 4)),
+    ('nfkc-class', 'class \ufb01le:\n    pass\n\ufb01le().\n', (3, 7)),
+    ('nfkc-import', 'import \ufb01le\n\ufb01le\n', (2, 4)),
+    ('nfkc-from-as', 'from os import path as \ufb01le\n\ufb01le\n', (2, 4)),
+    ('nonascii-left-import', 's = "\u00e9\u00e9\u00e9\u00e9\u00e9\u00e9"; import os\nos\n', (2, 2)),
+    ('nonascii-left-def', 's = "\u4e2d\u4e2d\u4e2d"; \u00e9 = 1\nif s: \u00e9 = "\u00e9\u00e9\u00e9\u00e9"; import sys as y\ny\n', (3, 1)),
+    ('nonascii-left-from', 'x = "\U0001f600\U0001f600\U0001f600\U0001f600"; from os import (path as p,\n  sep)\nsep\n', (3, 3)),
+    ('import-list-60-lines', 'from os import (\n' + ''.join('    n%d,\n' % i for i in range(60)) + ')\nn59\n', (63, 3)),
+    ('import-list-60-unused', 'def f():\n    from os import (\n' + ''.join('        n%d,\n' % i for i in range(60)) + '    )\n', (1, 0)),
+    ('def-continuation', 'def \\\n\\\n   far_name():\n    pass\nfar_name\n', (5, 8)),
     ('empty', '', (1, 0)),
     ('only-newlines', '\n\n\n', (2, 0)),
     ('cursor-below', 'x = 1\n', (7, 0)),
